@@ -73,7 +73,12 @@ def opener_kinds(c, facts, fn, arm_variant, target_method, owner='env::Env::'):
         for arm in e['arms']:
             if arm_variant not in [v for v in (variant_of(p['path']) for p in [arm['pat']] if p['k'] in ('ts', 'struct')) if v]:
                 continue
-            for x, xa in hir_walk(arm['body']):
+            bodies = [arm['body']]
+            fam_ids = {f2.id: f2 for f2 in facts.family(fn, depth=1) if f2.hir and f2.id != fn.id and f2.kind != 'Closure'}
+            for y, _ in hir_walk(arm['body']):
+                if y['k'] == 'call' and callee_id(y) in fam_ids:
+                    bodies.append(fam_ids[callee_id(y)].hir['body'])
+            for x, xa in [z for bd in bodies for z in hir_walk(bd)]:
                 if x['k'] == 'if':
                     ks = []
                     for y, _ in hir_walk(x['cond']):
@@ -219,7 +224,8 @@ def r3_eager(c, facts):
 
 def r4_order(c, facts):
     R = c.rule('C08.R4', 'ORDER: stdlib, imports, declarations are declared (in that order) before the traversal; duplicates and unbound uses are errors')
-    fn = c.anchor(R, 'oal_compiler::resolve::resolve')
+    # phases split into private helpers (`declare_globals`, `enter_node`) are looked through
+    fn = facts.inlined(c.anchor(R, 'oal_compiler::resolve::resolve'), keep=('import', 'declare_import', 'declare_variable', 'define_variable', 'open_declaration', 'open_recursion', 'close_declaration', 'close_recursion', 'open', 'close', 'declare', 'lookup', 'connect'))
     seq = ['stdlib::import', 'resolve::declare_import', 'resolve::declare_variable', 'resolve::define_variable']
     where = {}
     for s in seq:
